@@ -976,7 +976,7 @@ fn gen_fd(rng: &mut Rng, tier: Tier, emit: &mut dyn FnMut(Vec<Tok>)) {
                 for opc in 0..4u64 {
                     for sc in &scripts {
                         i += 1;
-                        if quick && i % 3 != 0 {
+                        if quick && i % 2 != 0 {
                             continue;
                         }
                         let content = pattern(rng, slen);
@@ -989,7 +989,7 @@ fn gen_fd(rng: &mut Rng, tier: Tier, emit: &mut dyn FnMut(Vec<Tok>)) {
         }
     }
     // 2. random histories of up to 4 operations, every operation with its own random script
-    let nhist = if quick { 10_000 } else { 300_000 };
+    let nhist = if quick { 16_000 } else { 300_000 };
     for _ in 0..nhist {
         let kind = *rng.pick(&[5u64, 5, 6, 7, 13, 14, 15]);
         let file = kind % 8 == 5;
